@@ -427,4 +427,866 @@ theorem runProgram_append (fuel : Nat) (inp : Input) (p q : Bst.Program) (s : St
     | error e => rfl
     | ok s' => exact ih s'
 
+
+/-! ### the frame property: after `READ` the interpreter sees the database only through the view of the cited keys -/
+
+
+/-- replace the database -/
+def setDb (db : BibData) (s : St) : St := { s with db := some db }
+
+@[simp] theorem setDb_stack (db : BibData) (s : St) : (setDb db s).stack = s.stack := rfl
+@[simp] theorem setDb_vars (db : BibData) (s : St) : (setDb db s).vars = s.vars := rfl
+@[simp] theorem setDb_macros (db : BibData) (s : St) : (setDb db s).macros = s.macros := rfl
+@[simp] theorem setDb_buffer (db : BibData) (s : St) : (setDb db s).buffer = s.buffer := rfl
+@[simp] theorem setDb_lines (db : BibData) (s : St) : (setDb db s).lines = s.lines := rfl
+@[simp] theorem setDb_entryVars (db : BibData) (s : St) : (setDb db s).entryVars = s.entryVars := rfl
+@[simp] theorem setDb_citations (db : BibData) (s : St) : (setDb db s).citations = s.citations := rfl
+@[simp] theorem setDb_db (db : BibData) (s : St) : (setDb db s).db = some db := rfl
+@[simp] theorem setDb_preamble (db : BibData) (s : St) : (setDb db s).preamble = s.preamble := rfl
+@[simp] theorem setDb_cur (db : BibData) (s : St) : (setDb db s).cur = s.cur := rfl
+@[simp] theorem setDb_reports (db : BibData) (s : St) : (setDb db s).reports = s.reports := rfl
+@[simp] theorem setDb_printed (db : BibData) (s : St) : (setDb db s).printed = s.printed := rfl
+@[simp] theorem frameOf_setDb (db : BibData) (s : St) (k : Str) : frameOf (setDb db s) k = frameOf s k := rfl
+
+/-- the two databases show the same thing for every key of `K`: an entry of the same type, the
+same value for every field name (own or inherited along the `crossref` chain), the same
+`crossref` value -/
+def Agree (K : List Str) (db₁ db₂ : BibData) : Prop :=
+  ∀ k ∈ K, ∃ e₁ e₂, db₁.entries.getItem k = some e₁ ∧ db₂.entries.getItem k = some e₂ ∧
+    e₁.type = e₂.type ∧ (∀ n, bstFieldValue db₁ e₁ n = bstFieldValue db₂ e₂ n) ∧
+    bstCrossrefValue db₁ e₁ = bstCrossrefValue db₂ e₂
+
+/-- a state of the run on `db₁` whose current entry and citations are keys of `K` -/
+structure Good (K : List Str) (db₁ : BibData) (s : St) : Prop where
+  hdb : s.db = some db₁
+  hcur : ∀ k, s.cur = some k → k ∈ K
+  hcit : ∀ c ∈ s.citations, c ∈ K
+
+/-- two interpreter states that differ in the database only (`db₁` resp. `db₂`) -/
+def Sim (K : List Str) (db₁ db₂ : BibData) (s₁ s₂ : St) : Prop :=
+  Good K db₁ s₁ ∧ s₂ = setDb db₂ s₁
+
+/-- same error, or similar states -/
+def SimR (K : List Str) (db₁ db₂ : BibData) (r₁ r₂ : Except IErr St) : Prop :=
+  match r₁, r₂ with
+  | .ok a, .ok b => Sim K db₁ db₂ a b
+  | .error e, .error e' => e = e'
+  | _, _ => False
+
+variable {K : List Str} {db₁ db₂ : BibData}
+
+/-- a state-passing step that does not look at the database -/
+def StepOK (K : List Str) (db₁ : BibData) {α : Type} (P : St → Except IErr (α × St)) : Prop :=
+  ∀ s, Good K db₁ s → ∀ db,
+    (∃ e, P s = .error e ∧ P (setDb db s) = .error e) ∨
+    (∃ a s', P s = .ok (a, s') ∧ P (setDb db s) = .ok (a, setDb db s') ∧ Good K db₁ s')
+
+theorem pop_ok : StepOK K db₁ pop := by
+  intro s g db
+  unfold pop
+  simp only [setDb_stack]
+  cases s.stack with
+  | nil => exact .inl ⟨_, rfl, rfl⟩
+  | cons v r => exact .inr ⟨v, _, rfl, rfl, ⟨g.1, g.2, g.3⟩⟩
+
+theorem popInt_ok : StepOK K db₁ popInt := by
+  intro s g db
+  unfold popInt
+  rcases pop_ok s g db with ⟨e, h1, h2⟩ | ⟨v, s', h1, h2, g'⟩ <;> simp only [h1, h2]
+  · exact .inl ⟨_, rfl, rfl⟩
+  · cases v
+    case int n => exact .inr ⟨n, s', rfl, rfl, g'⟩
+    all_goals exact .inl ⟨_, rfl, rfl⟩
+
+theorem popStr_ok : StepOK K db₁ popStr := by
+  intro s g db
+  unfold popStr
+  rcases pop_ok s g db with ⟨e, h1, h2⟩ | ⟨v, s', h1, h2, g'⟩ <;> simp only [h1, h2]
+  · exact .inl ⟨_, rfl, rfl⟩
+  · cases v
+    case str x => exact .inr ⟨x, s', rfl, rfl, g'⟩
+    case missing x => exact .inr ⟨[], s', rfl, rfl, g'⟩
+    all_goals exact .inl ⟨_, rfl, rfl⟩
+
+theorem sim_ok (s : St) (g : Good K db₁ s) : SimR K db₁ db₂ (.ok s) (.ok (setDb db₂ s)) := ⟨g, rfl⟩
+
+syntax "pop_step " term " with " ident ident ident : tactic
+macro_rules
+  | `(tactic| pop_step $l with $v $s' $g') =>
+    `(tactic| (have hl := $l
+               rcases hl with ⟨_, h1, h2⟩ | ⟨$v:ident, $s':ident, h1, h2, $g':ident⟩
+               · simp only [h1, h2]; exact rfl
+               simp only [h1, h2]))
+
+/-- one pop of whatever kind the goal shows; `g'` names the `Good` fact of the new state -/
+syntax "auto_pop " term " with " ident : tactic
+macro_rules
+  | `(tactic| auto_pop $db with $g') =>
+    `(tactic| first
+      | (have hl := pop_ok _ ‹Good _ _ _› $db
+         rcases hl with ⟨_, h1, h2⟩ | ⟨_, _, h1, h2, $g':ident⟩
+         · simp only [h1, h2]; exact rfl
+         simp only [h1, h2])
+      | (have hl := popInt_ok _ ‹Good _ _ _› $db
+         rcases hl with ⟨_, h1, h2⟩ | ⟨_, _, h1, h2, $g':ident⟩
+         · simp only [h1, h2]; exact rfl
+         simp only [h1, h2])
+      | (have hl := popStr_ok _ ‹Good _ _ _› $db
+         rcases hl with ⟨_, h1, h2⟩ | ⟨_, _, h1, h2, $g':ident⟩
+         · simp only [h1, h2]; exact rfl
+         simp only [h1, h2]))
+
+theorem sim_simple (b : Builtin) (fuel : Nat) (s : St) (g : Good K db₁ s)
+    (hb : b ≠ .callType ∧ b ≠ .if_ ∧ b ≠ .while_ ∧ b ≠ .type_ ∧ b ≠ .preamble ∧
+      b ≠ .addPeriod ∧ b ≠ .chrToInt ∧ b ≠ .intToStr ∧ b ≠ .missing ∧ b ≠ .top) :
+    SimR K db₁ db₂ (runBuiltin (fuel + 1) b s) (runBuiltin (fuel + 1) b (setDb db₂ s)) := by
+  cases b
+  case callType | if_ | while_ | type_ | preamble | addPeriod | chrToInt | intToStr | missing | top => simp at hb
+  all_goals simp only [runBuiltin]
+  all_goals try (auto_pop db₂ with g1; try (auto_pop db₂ with g2; try (auto_pop db₂ with g3)))
+  all_goals try simp only [setDb_stack, setDb_vars, setDb_cur, setDb_buffer, setDb_lines, setDb_printed, setDb_reports]
+  all_goals repeat' split
+  all_goals first
+    | exact rfl
+    | exact ⟨⟨g3.1, g3.2, g3.3⟩, rfl⟩
+    | exact ⟨⟨g2.1, g2.2, g2.3⟩, rfl⟩
+    | exact ⟨⟨g1.1, g1.2, g1.3⟩, rfl⟩
+    | exact ⟨⟨g.1, g.2, g.3⟩, rfl⟩
+
+
+theorem sim_valcase (b : Builtin) (fuel : Nat) (s : St) (g : Good K db₁ s)
+    (hb : b = .addPeriod ∨ b = .chrToInt ∨ b = .intToStr ∨ b = .missing ∨ b = .top) :
+    SimR K db₁ db₂ (runBuiltin (fuel + 1) b s) (runBuiltin (fuel + 1) b (setDb db₂ s)) := by
+  rcases hb with rfl | rfl | rfl | rfl | rfl
+  · simp only [runBuiltin]
+    pop_step pop_ok s g db₂ with v s1 g1
+    cases v <;> first | exact rfl | exact ⟨⟨g1.1, g1.2, g1.3⟩, rfl⟩
+  · simp only [runBuiltin]
+    pop_step popStr_ok s g db₂ with v s1 g1
+    rcases v with _ | ⟨c, _ | ⟨c', r⟩⟩ <;> first | exact rfl | exact ⟨⟨g1.1, g1.2, g1.3⟩, rfl⟩
+  · simp only [runBuiltin]
+    pop_step pop_ok s g db₂ with v s1 g1
+    cases v <;> first | exact rfl | exact ⟨⟨g1.1, g1.2, g1.3⟩, rfl⟩
+  · simp only [runBuiltin]
+    pop_step pop_ok s g db₂ with v s1 g1
+    cases v <;> first | exact rfl | exact ⟨⟨g1.1, g1.2, g1.3⟩, rfl⟩
+  · simp only [runBuiltin]
+    pop_step pop_ok s g db₂ with v s1 g1
+    cases v <;> first | exact rfl | exact ⟨⟨g1.1, g1.2, g1.3⟩, rfl⟩
+
+/-- the current entry: present in both databases with the same view, or the same error -/
+theorem curEntry_cases (hA : Agree K db₁ db₂) (s : St) (g : Good K db₁ s) :
+    (∃ e, curEntry s = .error e ∧ curEntry (setDb db₂ s) = .error e) ∨
+    (∃ k e₁ e₂, curEntry s = .ok (k, e₁, db₁) ∧ curEntry (setDb db₂ s) = .ok (k, e₂, db₂) ∧
+      e₁.type = e₂.type ∧ (∀ n, bstFieldValue db₁ e₁ n = bstFieldValue db₂ e₂ n) ∧
+      bstCrossrefValue db₁ e₁ = bstCrossrefValue db₂ e₂) := by
+  unfold curEntry
+  simp only [setDb_cur, setDb_db, g.hdb]
+  cases hc : s.cur with
+  | none => exact .inl ⟨_, rfl, rfl⟩
+  | some k =>
+    obtain ⟨e₁, e₂, h1, h2, h3, h4, h5⟩ := hA k (g.hcur k hc)
+    simp only [h1, h2]
+    exact .inr ⟨k, e₁, e₂, rfl, rfl, h3, h4, h5⟩
+
+theorem SimR.cases {r₁ r₂ : Except IErr St} (h : SimR K db₁ db₂ r₁ r₂) :
+    (∃ e, r₁ = .error e ∧ r₂ = .error e) ∨
+    (∃ s, r₁ = .ok s ∧ r₂ = .ok (setDb db₂ s) ∧ Good K db₁ s) := by
+  cases r₁ with
+  | error e =>
+    cases r₂ with
+    | error e' => exact .inl ⟨e, rfl, by rw [show e = e' from h]⟩
+    | ok s2 => exact h.elim
+  | ok s1 =>
+    cases r₂ with
+    | error e' => exact h.elim
+    | ok s2 => obtain ⟨g1, rfl⟩ := h; exact .inr ⟨s1, rfl, rfl, g1⟩
+
+theorem frame_all (hA : Agree K db₁ db₂) : ∀ fuel : Nat,
+    (∀ v s, Good K db₁ s → SimR K db₁ db₂ (execVal fuel v s) (execVal fuel v (setDb db₂ s))) ∧
+    (∀ o s, Good K db₁ s → SimR K db₁ db₂ (execObj fuel o s) (execObj fuel o (setDb db₂ s))) ∧
+    (∀ t s, Good K db₁ s → SimR K db₁ db₂ (execTok fuel t s) (execTok fuel t (setDb db₂ s))) ∧
+    (∀ ts s, Good K db₁ s → SimR K db₁ db₂ (execBody fuel ts s) (execBody fuel ts (setDb db₂ s))) ∧
+    (∀ p f s, Good K db₁ s → SimR K db₁ db₂ (whileLoop fuel p f s) (whileLoop fuel p f (setDb db₂ s))) ∧
+    (∀ b s, Good K db₁ s → SimR K db₁ db₂ (runBuiltin fuel b s) (runBuiltin fuel b (setDb db₂ s))) := by
+  intro fuel
+  induction fuel with
+  | zero =>
+    refine ⟨?_, ?_, ?_, ?_, ?_, ?_⟩ <;> intros <;>
+      simp only [execVal, execObj, execTok, execBody, whileLoop, runBuiltin] <;> exact rfl
+  | succ n ih =>
+    obtain ⟨ihVal, ihObj, ihTok, ihBody, ihWhile, ihB⟩ := ih
+    refine ⟨?_, ?_, ?_, ?_, ?_, ?_⟩
+    · -- execVal
+      intro v s g
+      cases v with
+      | fn body => simp only [execVal]; exact ihBody body s g
+      | ref name =>
+        simp only [execVal, setDb_vars]
+        cases s.vars.getItem name with
+        | none => exact rfl
+        | some o => exact ihObj o s g
+      | int _ => exact rfl
+      | str _ => exact rfl
+      | missing _ => exact rfl
+    · -- execObj
+      intro o s g
+      cases o with
+      | builtin b => simp only [execObj]; exact ihB b s g
+      | gint v => exact ⟨⟨g.1, g.2, g.3⟩, rfl⟩
+      | gstr v => exact ⟨⟨g.1, g.2, g.3⟩, rfl⟩
+      | eint nm =>
+        simp only [execObj, setDb_cur, frameOf_setDb]
+        cases s.cur with
+        | none => exact rfl
+        | some k => exact ⟨⟨g.1, g.2, g.3⟩, rfl⟩
+      | estr nm =>
+        simp only [execObj, setDb_cur, frameOf_setDb]
+        cases s.cur with
+        | none => exact rfl
+        | some k => exact ⟨⟨g.1, g.2, g.3⟩, rfl⟩
+      | field nm =>
+        simp only [execObj]
+        rcases curEntry_cases hA s g with ⟨e, h1, h2⟩ | ⟨k, e₁, e₂, h1, h2, h3, h4, h5⟩
+        · simp only [h1, h2]; exact rfl
+        · simp only [h1, h2, h4 nm]
+          exact ⟨⟨g.1, g.2, g.3⟩, rfl⟩
+      | crossref =>
+        simp only [execObj]
+        rcases curEntry_cases hA s g with ⟨e, h1, h2⟩ | ⟨k, e₁, e₂, h1, h2, h3, h4, h5⟩
+        · simp only [h1, h2]; exact rfl
+        · simp only [h1, h2, h5]
+          exact ⟨⟨g.1, g.2, g.3⟩, rfl⟩
+      | func body => simp only [execObj]; exact ihBody body s g
+    · -- execTok
+      intro t s g
+      cases t with
+      | int v => exact ⟨⟨g.1, g.2, g.3⟩, rfl⟩
+      | str v => exact ⟨⟨g.1, g.2, g.3⟩, rfl⟩
+      | fn body => exact ⟨⟨g.1, g.2, g.3⟩, rfl⟩
+      | quoted nm =>
+        simp only [execTok]
+        by_cases hc : s.vars.contains nm = true
+        · have hc' : (setDb db₂ s).vars.contains nm = true := hc
+          rw [if_pos hc, if_pos hc']; exact ⟨⟨g.1, g.2, g.3⟩, rfl⟩
+        · have hc' : ¬ (setDb db₂ s).vars.contains nm = true := hc
+          rw [if_neg hc, if_neg hc']; exact rfl
+      | name nm =>
+        simp only [execTok, setDb_vars]
+        cases s.vars.getItem nm with
+        | none => exact rfl
+        | some o => exact ihObj o s g
+    · -- execBody
+      intro ts s g
+      cases ts with
+      | nil => exact ⟨g, rfl⟩
+      | cons t ts =>
+        simp only [execBody]
+        rcases (ihTok t s g).cases with ⟨e, h1, h2⟩ | ⟨s1, h1, h2, g1⟩ <;> simp only [h1, h2]
+        · exact rfl
+        · exact ihBody ts s1 g1
+    · -- whileLoop
+      intro p f s g
+      simp only [whileLoop]
+      rcases (ihVal p s g).cases with ⟨e, h1, h2⟩ | ⟨s1, h1, h2, g1⟩ <;> simp only [h1, h2]
+      · exact rfl
+      pop_step popInt_ok s1 g1 db₂ with c s2 g2
+      split
+      · exact ⟨g2, rfl⟩
+      · rcases (ihVal f s2 g2).cases with ⟨e, h1, h2⟩ | ⟨s3, h1, h2, g3⟩ <;> simp only [h1, h2]
+        · exact rfl
+        · exact ihWhile p f s3 g3
+    · -- runBuiltin
+      intro b s g
+      by_cases hb : b ≠ .callType ∧ b ≠ .if_ ∧ b ≠ .while_ ∧ b ≠ .type_ ∧ b ≠ .preamble ∧
+          b ≠ .addPeriod ∧ b ≠ .chrToInt ∧ b ≠ .intToStr ∧ b ≠ .missing ∧ b ≠ .top
+      · exact sim_simple b n s g hb
+      by_cases hb2 : b = .addPeriod ∨ b = .chrToInt ∨ b = .intToStr ∨ b = .missing ∨ b = .top
+      · exact sim_valcase b n s g hb2
+      cases b
+      case callType =>
+        simp only [runBuiltin]
+        rcases curEntry_cases hA s g with ⟨e, h1, h2⟩ | ⟨k, e₁, e₂, h1, h2, h3, h4, h5⟩
+        · simp only [h1, h2]; exact rfl
+        · simp only [h1, h2, setDb_vars, ← h3]
+          cases s.vars.getItem e₁.type with
+          | some o => exact ihObj o s g
+          | none =>
+            simp only []
+            show SimR K db₁ db₂
+              (match (warn s _).vars.getItem "default.type".toList with
+                | some o => execObj n o (warn s _) | none => .ok (warn s _))
+              (match (setDb db₂ (warn s _)).vars.getItem "default.type".toList with
+                | some o => execObj n o (setDb db₂ (warn s _)) | none => .ok (setDb db₂ (warn s _)))
+            have gw : Good K db₁ (warn s ("entry type for \"".toList ++ k ++ "\" isn't style-file defined".toList)) :=
+              ⟨g.1, g.2, g.3⟩
+            simp only [setDb_vars]
+            cases (warn s ("entry type for \"".toList ++ k ++ "\" isn't style-file defined".toList)).vars.getItem
+                "default.type".toList with
+            | some o => exact ihObj o _ gw
+            | none => exact ⟨gw, rfl⟩
+      case if_ =>
+        simp only [runBuiltin]
+        pop_step pop_ok s g db₂ with f1 s1 g1
+        pop_step pop_ok s1 g1 db₂ with f2 s2 g2
+        pop_step popInt_ok s2 g2 db₂ with c s3 g3
+        split
+        · exact ihVal f2 s3 g3
+        · exact ihVal f1 s3 g3
+      case while_ =>
+        simp only [runBuiltin]
+        pop_step pop_ok s g db₂ with f s1 g1
+        pop_step pop_ok s1 g1 db₂ with p s2 g2
+        exact ihWhile p f s2 g2
+      case type_ =>
+        simp only [runBuiltin]
+        rcases curEntry_cases hA s g with ⟨e, h1, h2⟩ | ⟨k, e₁, e₂, h1, h2, h3, h4, h5⟩
+        · simp only [h1, h2]; exact rfl
+        · simp only [h1, h2, h3]
+          exact ⟨⟨g.1, g.2, g.3⟩, rfl⟩
+      case preamble =>
+        simp only [runBuiltin, setDb_db, g.hdb, setDb_preamble]
+        exact ⟨⟨g.1, g.2, g.3⟩, rfl⟩
+      all_goals simp at hb hb2
+
+
+/-! ### lifting the frame property to `iterate`, commands and programs -/
+
+theorem iterate_cons_error (fuel : Nat) (f : VarObj) (k : Str) (ks : List Str) (s : St) (db : BibData)
+    (e : IErr) (hdb : s.db = some db) (hc : db.entries.contains k = true)
+    (h : execObj fuel f { s with cur := some k } = .error e) : iterate fuel f (k :: ks) s = .error e := by
+  simp only [iterate, h]
+  simp only [hdb, hc]
+  rfl
+
+theorem iterate_cons_ok (fuel : Nat) (f : VarObj) (k : Str) (ks : List Str) (s s1 : St) (db : BibData)
+    (hdb : s.db = some db) (hc : db.entries.contains k = true)
+    (h : execObj fuel f { s with cur := some k } = .ok s1) :
+    iterate fuel f (k :: ks) s = iterate fuel f ks s1 := by
+  simp only [iterate, h]
+  simp only [hdb, hc]
+  rfl
+
+theorem iterate_sim (hA : Agree K db₁ db₂) (fuel : Nat) (f : VarObj) (keys : List Str)
+    (hk : ∀ k ∈ keys, k ∈ K) (s : St) (g : Good K db₁ s) :
+    SimR K db₁ db₂ (iterate fuel f keys s) (iterate fuel f keys (setDb db₂ s)) := by
+  induction keys generalizing s with
+  | nil => exact ⟨g, rfl⟩
+  | cons k ks ih =>
+    obtain ⟨e₁, e₂, h1, h2, -⟩ := hA k (hk k (List.mem_cons_self ..))
+    have c1 : db₁.entries.contains k = true := by
+      show (db₁.entries.getItem k).isSome = true
+      rw [h1]; rfl
+    have c2 : db₂.entries.contains k = true := by
+      show (db₂.entries.getItem k).isSome = true
+      rw [h2]; rfl
+    have gk : Good K db₁ { s with cur := some k } :=
+      ⟨g.1, fun k' hk' => by cases hk'; exact hk k (List.mem_cons_self ..), g.3⟩
+    have := (frame_all hA fuel).2.1 f _ gk
+    rcases this.cases with ⟨e, h1, h2⟩ | ⟨s1, h1, h2, g1⟩
+    · rw [iterate_cons_error fuel f k ks s db₁ e g.hdb c1 h1,
+        iterate_cons_error fuel f k ks (setDb db₂ s) db₂ e rfl c2 h2]
+      exact rfl
+    · rw [iterate_cons_ok fuel f k ks s s1 db₁ g.hdb c1 h1,
+        iterate_cons_ok fuel f k ks (setDb db₂ s) (setDb db₂ s1) db₂ rfl c2 h2]
+      exact ih (fun k hk' => hk k (List.mem_cons_of_mem _ hk')) s1 g1
+
+theorem addVariable_sim (n : Str) (v : VarObj) (s : St) (g : Good K db₁ s) :
+    SimR K db₁ db₂ (addVariable s n v) (addVariable (setDb db₂ s) n v) := by
+  unfold addVariable
+  by_cases hc : s.vars.contains n = true
+  · have hc' : (setDb db₂ s).vars.contains n = true := hc
+    rw [if_pos hc, if_pos hc']; exact rfl
+  · have hc' : ¬ (setDb db₂ s).vars.contains n = true := hc
+    rw [if_neg hc, if_neg hc']; exact ⟨⟨g.1, g.2, g.3⟩, rfl⟩
+
+theorem declare_sim (mk : Str → VarObj) (ts : List BTok) (s : St) (g : Good K db₁ s) :
+    SimR K db₁ db₂ (declare mk ts s) (declare mk ts (setDb db₂ s)) := by
+  induction ts generalizing s with
+  | nil => exact ⟨g, rfl⟩
+  | cons t ts ih =>
+    simp only [declare]
+    cases tokName t with
+    | error e => exact rfl
+    | ok n =>
+      simp only []
+      rcases (addVariable_sim (db₂ := db₂) n (mk n) s g).cases with ⟨e, h1, h2⟩ | ⟨s1, h1, h2, g1⟩ <;>
+        simp only [h1, h2]
+      · exact rfl
+      · exact ih s1 g1
+
+theorem overwrite_sim (v : VarObj) (ts : List BTok) (s : St) (g : Good K db₁ s) :
+    SimR K db₁ db₂ (overwrite v ts s) (overwrite v ts (setDb db₂ s)) := by
+  induction ts generalizing s with
+  | nil => exact ⟨g, rfl⟩
+  | cons t ts ih =>
+    simp only [overwrite]
+    cases tokName t with
+    | error e => exact rfl
+    | ok n => exact ih _ ⟨g.1, g.2, g.3⟩
+
+theorem mem_sortByKey_snd (l : List (Str × Str)) : ∀ c ∈ (sortByKey l).map (·.2), c ∈ l.map (·.2) := by
+  intro c hc
+  obtain ⟨p, hp, rfl⟩ := List.mem_map.1 hc
+  exact List.mem_map.2 ⟨p, ((sortByKey_spec l).1.mem_iff).1 hp, rfl⟩
+
+theorem runCommand_sim (hA : Agree K db₁ db₂) (fuel : Nat) (inp₁ inp₂ : Input) (c : Bst.Command)
+    (hc : upper c.name ≠ "READ".toList) (s : St) (g : Good K db₁ s) :
+    SimR K db₁ db₂ (runCommand fuel inp₁ c s) (runCommand fuel inp₂ c (setDb db₂ s)) := by
+  by_cases hsort : upper c.name = "SORT".toList
+  · -- SORT
+    have hR : runCommand fuel inp₂ c (setDb db₂ s) = (runCommand fuel inp₁ c s).map (setDb db₂) := by
+      simp only [runCommand, hsort]
+      rw [if_neg (by decide), if_neg (by decide), if_neg (by decide), if_neg (by decide), if_neg (by decide),
+        if_neg (by decide), if_neg (by decide), if_neg (by decide), if_pos trivial,
+        if_neg (by decide), if_neg (by decide), if_neg (by decide), if_neg (by decide), if_neg (by decide),
+        if_neg (by decide), if_neg (by decide), if_neg (by decide), if_pos trivial]
+      simp only [setDb_citations, frameOf_setDb]
+      split <;> rfl
+    rw [hR]
+    cases h : runCommand fuel inp₁ c s with
+    | error e => exact rfl
+    | ok s1 =>
+      obtain ⟨l, hl1, -, rfl⟩ := runCommand_sort_ok fuel inp₁ c s s1 hsort h
+      refine ⟨⟨g.1, g.2, ?_⟩, rfl⟩
+      intro c hc
+      exact g.3 c (hl1 ▸ mem_sortByKey_snd l c hc)
+  by_cases hit : upper c.name = "ITERATE".toList
+  · rw [runCommand_iterate _ _ _ _ hit, runCommand_iterate _ _ _ _ hit]
+    simp only [iterStep, setDb_vars, setDb_citations]
+    split
+    · split
+      · exact rfl
+      · split
+        · exact rfl
+        · exact iterate_sim hA fuel _ _ g.3 s g
+    · exact rfl
+  by_cases hrev : upper c.name = "REVERSE".toList
+  · rw [runCommand_reverse _ _ _ _ hrev, runCommand_reverse _ _ _ _ hrev]
+    simp only [iterStep, setDb_vars, setDb_citations]
+    split
+    · split
+      · exact rfl
+      · split
+        · exact rfl
+        · exact iterate_sim hA fuel _ _ (fun k hk => g.3 k (List.mem_reverse.1 hk)) s g
+    · exact rfl
+  simp only [runCommand, hc, hsort, hit, hrev, false_or, if_false]
+  split
+  · -- ENTRY
+    split
+    · rename_i fields ints strings _
+      rcases (declare_sim (db₂ := db₂) (fun n => VarObj.field n) fields s g).cases with
+        ⟨e, h1, h2⟩ | ⟨s1, h1, h2, g1⟩ <;> simp only [h1, h2]
+      · exact rfl
+      rcases (addVariable_sim (db₂ := db₂) "crossref".toList .crossref s1 g1).cases with
+        ⟨e, h1, h2⟩ | ⟨s2, h1, h2, g2⟩ <;> simp only [h1, h2]
+      · exact rfl
+      rcases (declare_sim (db₂ := db₂) (fun n => VarObj.eint n) ints s2 g2).cases with
+        ⟨e, h1, h2⟩ | ⟨s3, h1, h2, g3⟩ <;> simp only [h1, h2]
+      · exact rfl
+      exact declare_sim _ _ s3 g3
+    · exact rfl
+  split
+  · -- EXECUTE
+    split
+    · exact (frame_all hA fuel).2.2.1 _ s g
+    · exact rfl
+  split
+  · -- FUNCTION
+    split
+    · split
+      · exact rfl
+      · exact addVariable_sim _ _ s g
+    · exact rfl
+  split
+  · -- INTEGERS
+    split
+    · exact overwrite_sim _ _ s g
+    · exact rfl
+  split
+  · -- STRINGS
+    split
+    · exact overwrite_sim _ _ s g
+    · exact rfl
+  split
+  · -- MACRO
+    split
+    · split
+      · exact ⟨⟨g.1, g.2, g.3⟩, rfl⟩
+      · exact rfl
+    · exact rfl
+  exact rfl
+
+theorem runProgram_sim (hA : Agree K db₁ db₂) (fuel : Nat) (inp₁ inp₂ : Input) (prog : Bst.Program)
+    (hp : ∀ c ∈ prog, upper c.name ≠ "READ".toList) (s : St) (g : Good K db₁ s) :
+    SimR K db₁ db₂ (runProgram fuel inp₁ prog s) (runProgram fuel inp₂ prog (setDb db₂ s)) := by
+  induction prog generalizing s with
+  | nil => exact ⟨g, rfl⟩
+  | cons c cs ih =>
+    simp only [runProgram]
+    rcases (runCommand_sim hA fuel inp₁ inp₂ c (hp c (List.mem_cons_self ..)) s g).cases with
+      ⟨e, h1, h2⟩ | ⟨s1, h1, h2, g1⟩ <;> simp only [h1, h2]
+    · exact rfl
+    · exact ih (fun c hc => hp c (List.mem_cons_of_mem _ hc)) s1 g1
+
+
+
+/-! ### nothing but `iterate` changes the current entry, nothing but `READ` the database -/
+
+/-- same current entry and database -/
+def Same (s s' : St) : Prop := s'.cur = s.cur ∧ s'.db = s.db
+
+/-- the result, if any, has the current entry and the database of `s` -/
+def KeepR (s : St) (r : Except IErr St) : Prop :=
+  match r with
+  | .ok s' => Same s s'
+  | .error _ => True
+
+theorem keepR_trans {s s1 : St} {r : Except IErr St} (h : Same s s1) (h' : KeepR s1 r) : KeepR s r := by
+  cases r with
+  | error e => trivial
+  | ok s' => exact ⟨h'.1.trans h.1, h'.2.trans h.2⟩
+
+/-- marker: the state the code under scrutiny runs on -/
+structure At (s : St) : Prop where
+  t : True
+
+def StepC {α : Type} (P : St → Except IErr (α × St)) : Prop :=
+  ∀ s, At s → (∃ e, P s = .error e) ∨ (∃ a s', P s = .ok (a, s') ∧ Same s s' ∧ At s')
+
+theorem pop_c : StepC pop := by
+  intro s _
+  unfold pop
+  cases s.stack with
+  | nil => exact .inl ⟨_, rfl⟩
+  | cons v r => exact .inr ⟨v, _, rfl, ⟨rfl, rfl⟩, ⟨trivial⟩⟩
+
+theorem popInt_c : StepC popInt := by
+  intro s a
+  unfold popInt
+  rcases pop_c s a with ⟨e, h1⟩ | ⟨v, s', h1, h2, a'⟩ <;> simp only [h1]
+  · exact .inl ⟨_, rfl⟩
+  · cases v
+    case int n => exact .inr ⟨n, s', rfl, h2, a'⟩
+    all_goals exact .inl ⟨_, rfl⟩
+
+theorem popStr_c : StepC popStr := by
+  intro s a
+  unfold popStr
+  rcases pop_c s a with ⟨e, h1⟩ | ⟨v, s', h1, h2, a'⟩ <;> simp only [h1]
+  · exact .inl ⟨_, rfl⟩
+  · cases v
+    case str x => exact .inr ⟨x, s', rfl, h2, a'⟩
+    case missing x => exact .inr ⟨[], s', rfl, h2, a'⟩
+    all_goals exact .inl ⟨_, rfl⟩
+
+syntax "cur_pop" : tactic
+macro_rules
+  | `(tactic| cur_pop) =>
+    `(tactic| first
+      | (have hl := pop_c _ ‹At _›
+         rcases hl with ⟨_, h1⟩ | ⟨_, _, h1, h2, _⟩
+         · simp only [h1]; trivial
+         simp only [h1]; refine keepR_trans h2 ?_)
+      | (have hl := popInt_c _ ‹At _›
+         rcases hl with ⟨_, h1⟩ | ⟨_, _, h1, h2, _⟩
+         · simp only [h1]; trivial
+         simp only [h1]; refine keepR_trans h2 ?_)
+      | (have hl := popStr_c _ ‹At _›
+         rcases hl with ⟨_, h1⟩ | ⟨_, _, h1, h2, _⟩
+         · simp only [h1]; trivial
+         simp only [h1]; refine keepR_trans h2 ?_))
+
+theorem cur_simple (b : Builtin) (fuel : Nat) (s : St)
+    (hb : b ≠ .callType ∧ b ≠ .if_ ∧ b ≠ .while_) :
+    KeepR s (runBuiltin (fuel + 1) b s) := by
+  have a0 : At s := ⟨trivial⟩
+  cases b
+  case callType | if_ | while_ => simp at hb
+  all_goals simp only [runBuiltin]
+  all_goals repeat cur_pop
+  all_goals repeat' split
+  all_goals first | exact ⟨rfl, rfl⟩ | trivial | (rename_i heq; cases heq; exact ⟨rfl, rfl⟩)
+
+/-- `execVal`, `execObj`, `execTok`, `execBody`, `whileLoop`, `runBuiltin` leave `cur` alone -/
+theorem exec_cur : ∀ fuel : Nat,
+    (∀ v s, KeepR s (execVal fuel v s)) ∧
+    (∀ o s, KeepR s (execObj fuel o s)) ∧
+    (∀ t s, KeepR s (execTok fuel t s)) ∧
+    (∀ ts s, KeepR s (execBody fuel ts s)) ∧
+    (∀ p f s, KeepR s (whileLoop fuel p f s)) ∧
+    (∀ b s, KeepR s (runBuiltin fuel b s)) := by
+  intro fuel
+  induction fuel with
+  | zero =>
+    refine ⟨?_, ?_, ?_, ?_, ?_, ?_⟩ <;> intros <;>
+      simp only [execVal, execObj, execTok, execBody, whileLoop, runBuiltin] <;> trivial
+  | succ n ih =>
+    obtain ⟨ihVal, ihObj, ihTok, ihBody, ihWhile, ihB⟩ := ih
+    refine ⟨?_, ?_, ?_, ?_, ?_, ?_⟩
+    · intro v s
+      cases v with
+      | fn body => simp only [execVal]; exact ihBody body s
+      | ref name =>
+        simp only [execVal]
+        cases s.vars.getItem name with
+        | none => trivial
+        | some o => exact ihObj o s
+      | int _ => trivial
+      | str _ => trivial
+      | missing _ => trivial
+    · intro o s
+      cases o with
+      | builtin b => simp only [execObj]; exact ihB b s
+      | gint v => exact ⟨rfl, rfl⟩
+      | gstr v => exact ⟨rfl, rfl⟩
+      | eint nm =>
+        simp only [execObj]
+        cases hc : s.cur with
+        | none => trivial
+        | some k => exact ⟨rfl, rfl⟩
+      | estr nm =>
+        simp only [execObj]
+        cases hc : s.cur with
+        | none => trivial
+        | some k => exact ⟨rfl, rfl⟩
+      | field nm =>
+        simp only [execObj]
+        cases curEntry s with
+        | error e => trivial
+        | ok r => exact ⟨rfl, rfl⟩
+      | crossref =>
+        simp only [execObj]
+        cases curEntry s with
+        | error e => trivial
+        | ok r => exact ⟨rfl, rfl⟩
+      | func body => simp only [execObj]; exact ihBody body s
+    · intro t s
+      cases t with
+      | int v => exact ⟨rfl, rfl⟩
+      | str v => exact ⟨rfl, rfl⟩
+      | fn body => exact ⟨rfl, rfl⟩
+      | quoted nm =>
+        simp only [execTok]
+        split
+        · exact ⟨rfl, rfl⟩
+        · trivial
+      | name nm =>
+        simp only [execTok]
+        cases s.vars.getItem nm with
+        | none => trivial
+        | some o => exact ihObj o s
+    · intro ts s
+      cases ts with
+      | nil => exact ⟨rfl, rfl⟩
+      | cons t ts =>
+        simp only [execBody]
+        have h := ihTok t s
+        cases h1 : execTok n t s with
+        | error e => trivial
+        | ok s1 =>
+          rw [h1] at h
+          exact keepR_trans h (ihBody ts s1)
+    · intro p f s
+      simp only [whileLoop]
+      have h := ihVal p s
+      cases h1 : execVal n p s with
+      | error e => trivial
+      | ok s1 =>
+        rw [h1] at h
+        simp only []
+        refine keepR_trans h ?_
+        have a1 : At s1 := ⟨trivial⟩
+        cur_pop
+        split
+        · exact ⟨rfl, rfl⟩
+        · rename_i s2 _ _ _ _
+          have h := ihVal f s2
+          cases h2 : execVal n f s2 with
+          | error e => trivial
+          | ok s3 =>
+            rw [h2] at h
+            exact keepR_trans h (ihWhile p f s3)
+    · intro b s
+      by_cases hb : b ≠ .callType ∧ b ≠ .if_ ∧ b ≠ .while_
+      · exact cur_simple b n s hb
+      have a0 : At s := ⟨trivial⟩
+      cases b
+      case callType =>
+        simp only [runBuiltin]
+        cases curEntry s with
+        | error e => trivial
+        | ok r =>
+          simp only []
+          cases s.vars.getItem r.2.1.type with
+          | some o => exact ihObj o s
+          | none =>
+            simp only []
+            cases (warn s ("entry type for \"".toList ++ r.1 ++ "\" isn't style-file defined".toList)).vars.getItem
+                "default.type".toList with
+            | some o => exact ihObj o (warn s _)
+            | none => exact ⟨rfl, rfl⟩
+      case if_ =>
+        simp only [runBuiltin]
+        cur_pop
+        cur_pop
+        cur_pop
+        split
+        · exact ihVal _ _
+        · exact ihVal _ _
+      case while_ =>
+        simp only [runBuiltin]
+        cur_pop
+        cur_pop
+        exact ihWhile _ _ _
+      all_goals simp at hb
+
+
+/-! ### commands other than `READ` -/
+
+theorem runCommand_inp (fuel : Nat) (inp₁ inp₂ : Input) (c : Bst.Command) (s : St)
+    (hc : upper c.name ≠ "READ".toList) : runCommand fuel inp₁ c s = runCommand fuel inp₂ c s := by
+  simp only [runCommand, hc, if_false]
+
+theorem runProgram_inp (fuel : Nat) (inp₁ inp₂ : Input) (prog : Bst.Program) (s : St)
+    (hp : ∀ c ∈ prog, upper c.name ≠ "READ".toList) : runProgram fuel inp₁ prog s = runProgram fuel inp₂ prog s := by
+  induction prog generalizing s with
+  | nil => rfl
+  | cons c cs ih =>
+    simp only [runProgram]
+    rw [runCommand_inp fuel inp₁ inp₂ c s (hp c (List.mem_cons_self ..))]
+    cases runCommand fuel inp₂ c s with
+    | error e => rfl
+    | ok s1 => exact ih s1 (fun c hc => hp c (List.mem_cons_of_mem _ hc))
+
+theorem addVariable_keep (n : Str) (v : VarObj) (s : St) : KeepR s (addVariable s n v) := by
+  unfold addVariable
+  split
+  · trivial
+  · exact ⟨rfl, rfl⟩
+
+theorem declare_keep (mk : Str → VarObj) (ts : List BTok) (s : St) : KeepR s (declare mk ts s) := by
+  induction ts generalizing s with
+  | nil => exact ⟨rfl, rfl⟩
+  | cons t ts ih =>
+    simp only [declare]
+    cases tokName t with
+    | error e => trivial
+    | ok n =>
+      simp only []
+      have h := addVariable_keep n (mk n) s
+      cases h1 : addVariable s n (mk n) with
+      | error e => trivial
+      | ok s1 => rw [h1] at h; exact keepR_trans h (ih s1)
+
+theorem overwrite_keep (v : VarObj) (ts : List BTok) (s : St) : KeepR s (overwrite v ts s) := by
+  induction ts generalizing s with
+  | nil => exact ⟨rfl, rfl⟩
+  | cons t ts ih =>
+    simp only [overwrite]
+    cases tokName t with
+    | error e => trivial
+    | ok n => exact keepR_trans (s1 := { s with vars := s.vars.setItem n v }) ⟨rfl, rfl⟩ (ih _)
+
+theorem iterate_noDb (fuel : Nat) (f : VarObj) (keys : List Str) (s : St) (hdb : s.db = none) :
+    KeepR s (iterate fuel f keys s) := by
+  cases keys with
+  | nil => exact ⟨rfl, rfl⟩
+  | cons k ks => simp only [iterate, hdb]; trivial
+
+/-- before `READ` (no database yet) no command sets a current entry or a database -/
+theorem runCommand_keep (fuel : Nat) (inp : Input) (c : Bst.Command)
+    (hc : upper c.name ≠ "READ".toList) (s : St) (hdb : s.db = none) :
+    KeepR s (runCommand fuel inp c s) := by
+  by_cases hit : upper c.name = "ITERATE".toList
+  · rw [runCommand_iterate _ _ _ _ hit]
+    simp only [iterStep]
+    split
+    · split
+      · trivial
+      · split
+        · trivial
+        · exact iterate_noDb _ _ _ s hdb
+    · trivial
+  by_cases hrev : upper c.name = "REVERSE".toList
+  · rw [runCommand_reverse _ _ _ _ hrev]
+    simp only [iterStep]
+    split
+    · split
+      · trivial
+      · split
+        · trivial
+        · exact iterate_noDb _ _ _ s hdb
+    · trivial
+  simp only [runCommand, hc, hit, hrev, false_or, if_false]
+  split
+  · -- ENTRY
+    split
+    · rename_i fields ints strings _
+      have h := declare_keep (fun n => VarObj.field n) fields s
+      cases h1 : declare (fun n => VarObj.field n) fields s with
+      | error e => trivial
+      | ok s1 =>
+        rw [h1] at h
+        simp only []
+        refine keepR_trans h ?_
+        have h := addVariable_keep "crossref".toList .crossref s1
+        cases h2 : addVariable s1 "crossref".toList .crossref with
+        | error e => trivial
+        | ok s2 =>
+          rw [h2] at h
+          simp only []
+          refine keepR_trans h ?_
+          have h := declare_keep (fun n => VarObj.eint n) ints s2
+          cases h3 : declare (fun n => VarObj.eint n) ints s2 with
+          | error e => trivial
+          | ok s3 =>
+            rw [h3] at h
+            exact keepR_trans h (declare_keep _ _ s3)
+    · trivial
+  split
+  · split
+    · exact (exec_cur fuel).2.2.1 _ s
+    · trivial
+  split
+  · split
+    · split
+      · trivial
+      · exact addVariable_keep _ _ s
+    · trivial
+  split
+  · split
+    · exact overwrite_keep _ _ s
+    · trivial
+  split
+  · split
+    · exact overwrite_keep _ _ s
+    · trivial
+  split
+  · split
+    · split
+      · exact ⟨rfl, rfl⟩
+      · trivial
+    · trivial
+  split
+  · split
+    · trivial
+    · exact ⟨rfl, rfl⟩
+  · trivial
+
+theorem runProgram_keep (fuel : Nat) (inp : Input) (prog : Bst.Program)
+    (hp : ∀ c ∈ prog, upper c.name ≠ "READ".toList) (s : St) (hdb : s.db = none) :
+    KeepR s (runProgram fuel inp prog s) := by
+  induction prog generalizing s with
+  | nil => exact ⟨rfl, rfl⟩
+  | cons c cs ih =>
+    simp only [runProgram]
+    have h := runCommand_keep fuel inp c (hp c (List.mem_cons_self ..)) s hdb
+    cases h1 : runCommand fuel inp c s with
+    | error e => trivial
+    | ok s1 =>
+      rw [h1] at h
+      exact keepR_trans h (ih (fun c hc => hp c (List.mem_cons_of_mem _ hc)) s1 (h.2.trans hdb))
+
 end Pybtex.Engine
